@@ -321,8 +321,8 @@ func (q *integ) rect(v0, v1, p0, p1, coarse float64, depth int, tol float64) flo
 		q.errSum += err
 		return fine
 	}
-	return q.rect(v0, vm, p0, pm, a, depth+1, tol/4) + q.rect(vm, v1, p0, pm, b, depth+1, tol/4) +
-		q.rect(v0, vm, pm, p1, c, depth+1, tol/4) + q.rect(vm, v1, pm, p1, d, depth+1, tol/4)
+	return q.rect(v0, vm, p0, pm, a, depth+1, tol/2) + q.rect(vm, v1, p0, pm, b, depth+1, tol/2) +
+		q.rect(v0, vm, pm, p1, c, depth+1, tol/2) + q.rect(vm, v1, pm, p1, d, depth+1, tol/2)
 }
 
 // cell integrates one top-level rectangle; returns the value and the error estimate.
